@@ -430,7 +430,16 @@ func runMatrixCase(c mcase) (out caseOut) {
 				bad("valid polling handshake refused during set-up", "%v", a)
 				return
 			}
-			D.sock.Close()
+			// the 'closed' session ends in a different way in each state: closed by the server application,
+			// by the client's CLOSE packet, by a transport error (undecodable request body)
+			switch state {
+			case "live":
+				w.call("POST", query("4", "polling", dsid, "", ""), "1", "text/plain;charset=UTF-8")
+			case "session-closed":
+				w.call("POST", query("4", "polling", dsid, "", ""), "4ok\x1ebAAA*", "text/plain;charset=UTF-8")
+			default:
+				D.sock.Close()
+			}
 			vsched.Sleep(settle)
 			lsid, a := w.handshake()
 			if L = w.find(lsid); L == nil || L == D {
@@ -1341,6 +1350,7 @@ func main() {
 			"protocol codes as in the Engine.IO reference server and server_error.go: 0 transport unknown, 1 session id unknown, 2 bad handshake method, 3 bad request, 5 unsupported protocol version; several faults: any of their codes (no precedence fixed)",
 			"a request with a sid and an unknown/absent transport may be answered with code 0 or 3; an unexpected method on a live polling session and a websocket handshake/upgrade without upgrade headers only have to leave every session intact",
 			"in state 'fresh' the sid kinds 'live' and 'closed' are never-issued ids (there is no session yet): they count as unknown",
+			"the 'closed' sid belongs to a session that was ended by the client's CLOSE packet (state live), by a transport error - an undecodable request body - (state session-closed) or by the server application's Close (state server-closed)",
 			"a forced id collision models the state 2^24 ids later (only 24 bits of the sequence number survive in an id) together with equal random bytes",
 			"racing Close is judged at quiescence before any heartbeat timer fires (a leaked polling session would otherwise be reaped by the ping timeout 45 s later; a websocket one never)",
 			"the retry limit is the code's Base64IDMaxTry; a refusal needs at least that many collisions",
